@@ -1421,8 +1421,8 @@ func (pc *PartitionContext) handleForeignAllocation(allocationKey, applicationID
 		return false, false, fmt.Errorf("failed to find node %s for allocation %s", nodeID, allocationKey)
 	}
 
-	exists := pc.getOrStoreForeignAlloc(alloc)
-	if !exists {
+	previous := pc.storeForeignAlloc(alloc)
+	if previous == nil {
 		log.Log(log.SchedPartition).Info("adding new foreign allocation",
 			zap.String("partitionName", pc.Name),
 			zap.String("nodeID", nodeID),
@@ -1439,8 +1439,14 @@ func (pc *PartitionContext) handleForeignAllocation(allocationKey, applicationID
 		zap.String("name", alloc.GetAllocationName()),
 		zap.String("allocationKey", allocationKey),
 		zap.Stringer("new allocated resource", alloc.GetAllocatedResource()))
+	// the allocation is reported on another node than before: it leaves the node it was tracked on
+	if previous.GetNodeID() != nodeID {
+		if oldNode := pc.GetNode(previous.GetNodeID()); oldNode != nil {
+			oldNode.RemoveAllocation(allocationKey)
+		}
+	}
 	prev := node.UpdateForeignAllocation(alloc)
-	if prev == nil {
+	if prev == nil && previous.GetNodeID() == nodeID {
 		log.Log(log.SchedPartition).Warn("BUG: previous allocation not found during update",
 			zap.String("allocationKey", allocationKey),
 			zap.String("name", alloc.GetAllocationName()))
@@ -1455,17 +1461,14 @@ func (pc *PartitionContext) convertUGI(ugi *si.UserGroupInformation, forced bool
 	return pc.userGroupCache.ConvertUGI(ugi, forced)
 }
 
-// getOrStoreForeignAlloc returns whether the allocation already exists or stores it if it's new
-func (pc *PartitionContext) getOrStoreForeignAlloc(alloc *objects.Allocation) bool {
+// storeForeignAlloc stores the latest version of the foreign allocation and returns the one tracked before, nil if it is new
+func (pc *PartitionContext) storeForeignAlloc(alloc *objects.Allocation) *objects.Allocation {
 	pc.Lock()
 	defer pc.Unlock()
 	allocKey := alloc.GetAllocationKey()
 	existing := pc.foreignAllocs[allocKey]
-	if existing == nil {
-		pc.foreignAllocs[allocKey] = alloc
-		return false
-	}
-	return true
+	pc.foreignAllocs[allocKey] = alloc
+	return existing
 }
 
 // calculate overall nodes resource usage and returns a map as the result,
